@@ -7,6 +7,16 @@ import Mathlib.Data.List.Basic
 
 Everything is proved for ALL oracles (the candidate lists of `_fill_stack`), every `ask` operation of a history carrying
 its own oracle, and for every state reachable from `init` by any operation list.
+
+The model follows `Learner2D.ask` after its two repairs (e806eb2, 844d031).  What they make true, for EVERY state and oracle:
+* `ask_false_pending` / `ask_false_pending_failed`: a non-committing `ask` leaves `pending_points` exactly as it was (before:
+  only for stack keys and candidates that were not pending - `CandsNotPending`);
+* `ask_false_failed_noop`: a non-committing `ask` that raises returns the state it was given (before: the stack entries it
+  had taken were gone and pending);
+* `ask_pending_mono` / `pending_stays_run_any`: no `ask` whatsoever removes a point from the pending set;
+* `ask_false_noop` no longer needs "the first `n` stack keys are not pending".
+What did NOT change: a non-committing `ask` that returns REWRITES the stack (section F), a committing `ask` that raises
+keeps its marks, and the invariant `Inv1` (no stack key pending / evaluated) still needs fresh oracles (`CandsFresh`).
 -/
 namespace L2D
 variable {V L α : Type}
@@ -474,30 +484,57 @@ theorem askLoop_diverge_iff_empty_round (c : Cfg L) (cands : Oracle V L) :
 
 /-! ## C. `ask`: shape, data, the pending bookkeeping of the loop -/
 
+/-- the three ways the state of `ask` comes about: the state of `askCore` as it is (committing, or the loop cannot make
+progress), the `if not tell_pending` block after a loop that returned, the `except` block after a loop that raised -/
 theorem ask_fst_cases (c : Cfg L) (cands : Oracle V L) (s : State V L) (n : Nat) (commit : Bool) :
     (ask c cands s n commit).1 = (askCore c cands s n).1 ∨
-    ∃ pts, askCore c cands s n = ((askCore c cands s n).1, .ok pts) ∧ commit = false ∧
-      (ask c cands s n commit).1 = uncommit c (askCore c cands s n).1 pts n := by
+    (∃ pts, askCore c cands s n = ((askCore c cands s n).1, .ok pts) ∧ commit = false ∧
+      (ask c cands s n commit).1 = uncommit c (askCore c cands s n).1 pts n s.pending) ∨
+    (askCore c cands s n = ((askCore c cands s n).1, .tooFew) ∧ commit = false ∧
+      (ask c cands s n commit).1 = unwind s (askCore c cands s n).1) := by
   unfold ask
   generalize askCore c cands s n = r
   obtain ⟨s2, o⟩ := r
   cases o with
   | ok pts => cases commit <;> simp
-  | tooFew => simp
+  | tooFew => cases commit <;> simp
   | diverge => simp
+
+/-- how `ask` ends is how its loop ends (the answer cut to `n` points) -/
+theorem ask_snd (c : Cfg L) (cands : Oracle V L) (s : State V L) (n : Nat) (commit : Bool) :
+    (ask c cands s n commit).2 =
+      match (askCore c cands s n).2 with
+      | .ok pts => .ok (pts.take n)
+      | o => o := by
+  unfold ask
+  generalize askCore c cands s n = r
+  obtain ⟨s2, o⟩ := r
+  cases o <;> cases commit <;> simp
 
 theorem ask_ok_iff (c : Cfg L) (cands : Oracle V L) (s : State V L) (n : Nat) (commit : Bool) (s' : State V L)
     (ret : List (Nat × L)) :
     ask c cands s n commit = (s', .ok ret) ↔
       ∃ s2 pts, askCore c cands s n = (s2, .ok pts) ∧ ret = pts.take n ∧
-        s' = if commit then s2 else uncommit c s2 pts n := by
+        s' = if commit then s2 else uncommit c s2 pts n s.pending := by
   unfold ask
   generalize askCore c cands s n = r
   obtain ⟨s2, o⟩ := r
   cases o with
   | ok pts =>
     cases commit <;> simp <;> constructor <;> (try rintro ⟨h1, h2⟩) <;> simp_all
-  | tooFew => simp
+  | tooFew => cases commit <;> simp
+  | diverge => simp
+
+/-- `ask` raises exactly when its loop raises; the state is then the one the loop raised in (committing) or the unwound one -/
+theorem ask_tooFew_iff (c : Cfg L) (cands : Oracle V L) (s : State V L) (n : Nat) (commit : Bool) (s' : State V L) :
+    ask c cands s n commit = (s', .tooFew) ↔
+      ∃ s2, askCore c cands s n = (s2, .tooFew) ∧ s' = if commit then s2 else unwind s s2 := by
+  unfold ask
+  generalize askCore c cands s n = r
+  obtain ⟨s2, o⟩ := r
+  cases o with
+  | ok pts => cases commit <;> simp
+  | tooFew => cases commit <;> simp <;> exact eq_comm
   | diverge => simp
 
 /-- a state property preserved by `_fill_stack` and `tell_pending` holds after `askCore`, however it ends -/
@@ -507,19 +544,27 @@ theorem askCore_state_induct (c : Cfg L) (cands : Oracle V L) (Q : State V L →
     Q (askCore c cands s n).1 :=
   askLoop_state_induct c cands Q hfill htp _ _ _ _ (tellPendingAll_induct c Q htp _ _ h)
 
-@[simp] theorem uncommit_data (c : Cfg L) (s : State V L) (pts : List (Nat × L)) (n : Nat) :
-    (uncommit c s pts n).data = s.data := rfl
+@[simp] theorem uncommit_data (c : Cfg L) (s : State V L) (pts : List (Nat × L)) (n : Nat) (pd0 : List Nat) :
+    (uncommit c s pts n pd0).data = s.data := rfl
+
+@[simp] theorem unwind_data (s0 s : State V L) : (unwind s0 s).data = s.data := rfl
+@[simp] theorem unwind_pending (s0 s : State V L) : (unwind s0 s).pending = s0.pending := rfl
+@[simp] theorem unwind_stack (s0 s : State V L) : (unwind s0 s).stack = ofPairs s0.stack := rfl
+
+theorem askCore_data (c : Cfg L) (cands : Oracle V L) (s : State V L) (n : Nat) :
+    (askCore c cands s n).1.data = s.data :=
+  askCore_state_induct c cands (fun s' => s'.data = s.data)
+    (fun s0 till s1 new h hf => by rw [(fillStack_some hf).1]; exact h)
+    (fun s0 p h => by simpa using h) s n rfl
 
 /-- **C09** `ask` never touches `data` (committing or not, returning or raising) -/
 theorem ask_data (c : Cfg L) (cands : Oracle V L) (s : State V L) (n : Nat) (commit : Bool) :
     (ask c cands s n commit).1.data = s.data := by
-  have h : (askCore c cands s n).1.data = s.data :=
-    askCore_state_induct c cands (fun s' => s'.data = s.data)
-      (fun s0 till s1 new h hf => by rw [(fillStack_some hf).1]; exact h)
-      (fun s0 p h => by simpa using h) s n rfl
-  rcases ask_fst_cases c cands s n commit with h' | ⟨pts, _, _, h'⟩
+  have h := askCore_data c cands s n
+  rcases ask_fst_cases c cands s n commit with h' | ⟨pts, _, _, h'⟩ | ⟨_, _, h'⟩
   · rw [h', h]
   · rw [h', uncommit_data, h]
+  · rw [h', unwind_data, h]
 
 theorem ask_npoints (c : Cfg L) (cands : Oracle V L) (s : State V L) (n : Nat) (commit : Bool) :
     npoints (ask c cands s n commit).1 = npoints s := by
@@ -532,6 +577,18 @@ theorem ask_ret_eq (c : Cfg L) (cands : Oracle V L) (s : State V L) (n : Nat) :
   generalize askCore c cands s n = r
   obtain ⟨s2, o⟩ := r
   cases o <;> simp
+
+/-- **C09** a non-committing `ask` that raises `too few points` leaves the learner as it found it: `data` is never touched,
+`pending_points` is set back to `was_pending`, `_stack` is re-built from the entries it held when `ask` was called (a stack
+with one entry per key - every reachable one: `inv0_reach` - is reproduced entry by entry).  Every oracle. -/
+theorem ask_false_failed_noop (c : Cfg L) (cands : Oracle V L) (s : State V L) (n : Nat) (hnd : (keys s.stack).Nodup)
+    {s' : State V L} (h : ask c cands s n false = (s', .tooFew)) : s' = s := by
+  obtain ⟨s2, hcore, hs'⟩ := (ask_tooFew_iff c cands s n false s').1 h
+  simp only [Bool.false_eq_true, if_false] at hs'
+  have hd : s2.data = s.data := by have := askCore_data c cands s n; rw [hcore] at this; exact this
+  rw [hs']
+  unfold unwind
+  rw [ofPairs_nodup hnd, hd]
 
 theorem take_append_new {pts new : List (Nat × L)} {nl n : Nat} (h : pts.length + (nl + 1) = n) :
     (pts ++ new).take n = pts ++ new.take (nl + 1) := by
@@ -557,6 +614,33 @@ theorem tellPendingAll_pending_append (c : Cfg L) (s : State V L) (pts : List (N
         · simp [h2 q hq]
     · exact ⟨ex, rfl, fun q hq => by simp [h2 q hq]⟩
 
+/-- … and the marks that `tell_pending` ADDS are points that were not pending -/
+theorem tellPendingAll_pending_append_new (c : Cfg L) (s : State V L) (pts : List (Nat × L)) :
+    ∃ extra, (tellPendingAll c s pts).pending = s.pending ++ extra ∧ ∀ q ∈ extra, q ∈ keys pts ∧ q ∉ s.pending := by
+  induction pts generalizing s with
+  | nil => exact ⟨[], by simp [tellPendingAll_nil], by simp⟩
+  | cons e t ih =>
+    obtain ⟨ex, h1, h2⟩ := ih (tellPending c s e.1)
+    rw [tellPendingAll_cons, h1]
+    unfold tellPending at h2 ⊢
+    split
+    · rename_i hb
+      simp only [hb, if_true, padd] at h2 ⊢
+      split
+      · rename_i hc
+        simp only [hc, if_true] at h2
+        exact ⟨ex, rfl, fun q hq => ⟨by simp [(h2 q hq).1], (h2 q hq).2⟩⟩
+      · rename_i hc
+        simp only [hc] at h2
+        refine ⟨e.1 :: ex, by simp, fun q hq => ?_⟩
+        simp only [List.mem_cons] at hq
+        rcases hq with hq | hq
+        · subst hq; exact ⟨by simp, by simpa using hc⟩
+        · exact ⟨by simp [(h2 q hq).1], fun hq' => (h2 q hq).2 (List.mem_append_left _ hq')⟩
+    · rename_i hb
+      simp only [hb] at h2
+      exact ⟨ex, rfl, fun q hq => ⟨by simp [(h2 q hq).1], (h2 q hq).2⟩⟩
+
 theorem foldl_pdiscard_eq_filter (pd : List Nat) (l : List (Nat × L)) :
     l.foldl (fun pd e => pdiscard pd e.1) pd = pd.filter (fun q => !(keys l).contains q) := by
   induction l generalizing pd with
@@ -572,9 +656,60 @@ theorem mem_foldl_pdiscard (pd : List Nat) (l : List (Nat × L)) (q : Nat) :
     q ∈ l.foldl (fun pd e => pdiscard pd e.1) pd ↔ q ∈ pd ∧ q ∉ keys l := by
   rw [foldl_pdiscard_eq_filter]; simp
 
+/-- the clean-up loop of the repaired `ask`: `for point in points[:n]: if point not in was_pending: discard(point)` -/
+theorem foldl_cond_pdiscard_eq_filter (pd0 pd : List Nat) (l : List (Nat × L)) :
+    l.foldl (fun pd e => if pd0.contains e.1 then pd else pdiscard pd e.1) pd =
+      pd.filter (fun q => !((keys l).contains q && !pd0.contains q)) := by
+  induction l generalizing pd with
+  | nil => simp
+  | cons e t ih =>
+    simp only [List.foldl_cons]
+    rw [ih]
+    by_cases hc : pd0.contains e.1 = true
+    · rw [if_pos hc]
+      have hc' : e.1 ∈ pd0 := by simpa using hc
+      congr 1; funext q
+      by_cases h : q = e.1
+      · subst h; simp [hc']
+      · simp [keys_cons, h]
+    · rw [if_neg hc, pdiscard, List.filter_filter]
+      have hc' : e.1 ∉ pd0 := by simpa using hc
+      congr 1; funext q
+      by_cases h : q = e.1
+      · subst h; simp [hc']
+      · simp [keys_cons, h, bne]
+
+theorem mem_foldl_cond_pdiscard (pd0 pd : List Nat) (l : List (Nat × L)) (q : Nat) :
+    q ∈ l.foldl (fun pd e => if pd0.contains e.1 then pd else pdiscard pd e.1) pd ↔
+      q ∈ pd ∧ (q ∈ keys l → q ∈ pd0) := by
+  rw [foldl_cond_pdiscard_eq_filter]; simp only [List.mem_filter]; simp; intro _; tauto
+
+/-- the marks a non-committing `ask` made are exactly what its clean-up takes back: if the pending list grew by points of `l`
+that were not pending before, the clean-up over `l` gives the old list - whatever else `l` contains -/
+theorem restore_pending_new {pd pd2 extra : List Nat} {l : List (Nat × L)} (h : pd2 = pd ++ extra)
+    (hex : ∀ q ∈ extra, q ∈ keys l ∧ q ∉ pd) :
+    l.foldl (fun pd' e => if pd.contains e.1 then pd' else pdiscard pd' e.1) pd2 = pd := by
+  rw [foldl_cond_pdiscard_eq_filter, h, List.filter_append]
+  have h1 : pd.filter (fun q => !((keys l).contains q && !pd.contains q)) = pd := by
+    rw [List.filter_eq_self]
+    intro q hq
+    simp [hq]
+  have h2 : extra.filter (fun q => !((keys l).contains q && !pd.contains q)) = [] := by
+    rw [List.filter_eq_nil_iff]
+    intro q hq
+    simp [(hex q hq).1, (hex q hq).2]
+  rw [h1, h2, List.append_nil]
+
+/-- bookkeeping invariant of the loop of `ask n`, for EVERY start state and EVERY oracle: the pending list is the original
+one plus points among `points[:n]` that were not pending originally -/
+def LoopQ (_c : Cfg L) (n : Nat) (pd0 : List Nat) (nl : Nat) (s : State V L) (pts : List (Nat × L)) : Prop :=
+  (0 < nl → pts.length + nl = n) ∧
+  (∃ extra, s.pending = pd0 ++ extra ∧ ∀ q ∈ extra, q ∈ keys (pts.take n) ∧ q ∉ pd0)
+
 /-- bookkeeping invariant of the loop of `ask n`, for a start state whose stack keys are not pending and an oracle whose
 candidates are not pending: the pending list is the original one plus points among `points[:n]`; no collected point was
-pending originally -/
+pending originally (the third clause is what `Inv1` needs: the rewritten stack holds no pending key; the pending set itself
+is restored without these hypotheses - `LoopQ`) -/
 def LoopP (_c : Cfg L) (n : Nat) (pd0 : List Nat) (nl : Nat) (s : State V L) (pts : List (Nat × L)) : Prop :=
   (0 < nl → pts.length + nl = n) ∧
   (∃ extra, s.pending = pd0 ++ extra ∧ ∀ q ∈ extra, q ∈ keys (pts.take n)) ∧
@@ -638,27 +773,74 @@ theorem askCore_loopP (c : Cfg L) (cands : Oracle V L) (hc : CandsNotPending can
   askLoop_induct c cands (LoopP c n s.pending) (loopP_step c cands hc n s.pending) _ _ _ _ _ _
     (loopP_init c s n hs) h
 
-/-- **C09** a non-committing `ask` that returns leaves `pending_points` exactly as it was - provided the stack keys are not
-pending (an invariant under `CandsFresh` histories) and the candidates are not pending -/
-theorem ask_false_pending (c : Cfg L) (cands : Oracle V L) (hc : CandsNotPending cands) (s : State V L) (n : Nat)
-    (hs : ∀ p ∈ keys s.stack, p ∉ s.pending) {s' : State V L} {ret : List (Nat × L)}
+theorem loopQ_step (c : Cfg L) (cands : Oracle V L) (n : Nat) (pd0 : List Nat)
+    (nl : Nat) (s : State V L) (pts : List (Nat × L)) (s1 : State V L) (new : List (Nat × L))
+    (h : LoopQ c n pd0 (nl + 1) s pts)
+    (hf : fillStack cands s (max (nl + 1) c.stackSize) = some (s1, new)) (_hne : new ≠ []) :
+    LoopQ c n pd0 (nl + 1 - new.length) (tellPendingAll c s1 (new.take (nl + 1))) (pts ++ new) := by
+  obtain ⟨hlen, extra, hpd, hex⟩ := h
+  have hlen := hlen (by omega)
+  have hs1 : s1.pending = s.pending := by rw [(fillStack_some hf).1]
+  have htake := take_append_new (pts := pts) (new := new) hlen
+  refine ⟨fun h0 => by simp only [List.length_append]; omega, ?_⟩
+  obtain ⟨ex2, h1, h2⟩ := tellPendingAll_pending_append_new c s1 (new.take (nl + 1))
+  refine ⟨extra ++ ex2, by rw [h1, hs1, hpd, List.append_assoc], fun q hq => ?_⟩
+  rw [htake, keys_append]
+  rcases List.mem_append.1 hq with hq | hq
+  · have := (hex q hq).1
+    rw [List.take_of_length_le (by omega)] at this
+    exact ⟨List.mem_append_left _ this, (hex q hq).2⟩
+  · refine ⟨List.mem_append_right _ (h2 q hq).1, fun hq0 => (h2 q hq).2 ?_⟩
+    rw [hs1, hpd]; exact List.mem_append_left _ hq0
+
+theorem loopQ_init (c : Cfg L) (s : State V L) (n : Nat) :
+    LoopQ c n s.pending (n - s.stack.length) (tellPendingAll c s (s.stack.take n)) s.stack := by
+  refine ⟨fun h => by omega, ?_⟩
+  obtain ⟨ex, h1, h2⟩ := tellPendingAll_pending_append_new c s (s.stack.take n)
+  exact ⟨ex, h1, h2⟩
+
+theorem askCore_loopQ (c : Cfg L) (cands : Oracle V L) (s : State V L) (n : Nat)
+    {s2 : State V L} {pts : List (Nat × L)}
+    (h : askCore c cands s n = (s2, .ok pts)) : LoopQ c n s.pending 0 s2 pts :=
+  askLoop_induct c cands (LoopQ c n s.pending) (loopQ_step c cands n s.pending) _ _ _ _ _ _
+    (loopQ_init c s n) h
+
+/-- the `if not tell_pending` block gives back the pending list `ask` was called with: every state, every oracle -/
+theorem uncommit_pending_of_core (c : Cfg L) (cands : Oracle V L) (s : State V L) (n : Nat) {s2 : State V L}
+    {pts : List (Nat × L)} (h : askCore c cands s n = (s2, .ok pts)) :
+    (uncommit c s2 pts n s.pending).pending = s.pending := by
+  obtain ⟨-, extra, hpd, hex⟩ := askCore_loopQ c cands s n h
+  exact restore_pending_new hpd hex
+
+/-- **C09** a non-committing `ask` that returns leaves `pending_points` exactly as it was: EVERY state, EVERY oracle (the
+marks the call adds are points of `points[:n]` that were not pending; the clean-up discards exactly those) -/
+theorem ask_false_pending (c : Cfg L) (cands : Oracle V L) (s : State V L) (n : Nat)
+    {s' : State V L} {ret : List (Nat × L)}
     (h : ask c cands s n false = (s', .ok ret)) : s'.pending = s.pending := by
   obtain ⟨s2, pts, hcore, -, hs'⟩ := (ask_ok_iff c cands s n false s' ret).1 h
-  obtain ⟨-, ⟨extra, hpd, hex⟩, hnp⟩ := askCore_loopP c cands hc s n hs hcore
   simp only [Bool.false_eq_true, if_false] at hs'
   rw [hs']
-  simp only [uncommit, foldl_pdiscard_eq_filter, hpd, List.filter_append]
-  have h1 : s.pending.filter (fun q => !(keys (pts.take n)).contains q) = s.pending := by
-    rw [List.filter_eq_self]
-    intro q hq
-    simp only [Bool.not_eq_eq_eq_not, Bool.not_true, List.contains_eq_mem, decide_eq_false_iff_not]
-    intro hq'
-    exact hnp q (mem_keys_of_mem_take hq') hq
-  have h2 : extra.filter (fun q => !(keys (pts.take n)).contains q) = [] := by
-    rw [List.filter_eq_nil_iff]
-    intro q hq
-    simp [hex q hq]
-  rw [h1, h2, List.append_nil]
+  exact uncommit_pending_of_core c cands s n hcore
+
+/-- **C09** … and so does one that raises (`pending_points = was_pending`) -/
+theorem ask_false_pending_failed (c : Cfg L) (cands : Oracle V L) (s : State V L) (n : Nat)
+    {s' : State V L} (h : ask c cands s n false = (s', .tooFew)) : s'.pending = s.pending := by
+  obtain ⟨s2, -, hs'⟩ := (ask_tooFew_iff c cands s n false s').1 h
+  simp only [Bool.false_eq_true, if_false] at hs'
+  rw [hs']; rfl
+
+/-- **C09/C10** no `ask` - committing or not, returning, raising or stuck, whatever the oracle proposes - takes a point out
+of the pending set -/
+theorem ask_pending_mono (c : Cfg L) (cands : Oracle V L) (s : State V L) (n : Nat) (commit : Bool) {p : Nat}
+    (hp : p ∈ s.pending) : p ∈ (ask c cands s n commit).1.pending := by
+  have hcore : p ∈ (askCore c cands s n).1.pending :=
+    askCore_state_induct c cands (fun s' => p ∈ s'.pending)
+      (fun _ _ _ _ h hf => by rw [(fillStack_some hf).1]; exact h)
+      (fun _ q h => (mem_pending_tellPending _ _ _ _).2 (Or.inl h)) s n hp
+  rcases ask_fst_cases c cands s n commit with h' | ⟨pts, hcr, _, h'⟩ | ⟨_, _, h'⟩
+  · rw [h']; exact hcore
+  · rw [h', uncommit_pending_of_core c cands s n hcr]; exact hp
+  · rw [h']; exact hp
 
 
 /-! ## D. invariants of every reachable state -/
@@ -708,11 +890,11 @@ theorem inv0_fillStack {c : Cfg L} {cands : Oracle V L} {s s1 : State V L} {till
   rw [(fillStack_some hf).1]
   exact ⟨h.pendNodup, fillLoop_nodup _ _ _ h.stackNodup, h.dataNodup, h.pendInB⟩
 
-theorem inv0_uncommit {c : Cfg L} {s : State V L} (h : Inv0 c s) (pts : List (Nat × L)) (n : Nat) :
-    Inv0 c (uncommit c s pts n) := by
+theorem inv0_uncommit {c : Cfg L} {s : State V L} (h : Inv0 c s) (pts : List (Nat × L)) (n : Nat) (pd0 : List Nat) :
+    Inv0 c (uncommit c s pts n pd0) := by
   refine ⟨?_, nodup_keys_ofPairs _, h.dataNodup, fun q hq => ?_⟩
-  · simp only [uncommit, foldl_pdiscard_eq_filter]; exact h.pendNodup.filter _
-  · exact h.pendInB q ((mem_foldl_pdiscard _ _ _).1 hq).1
+  · simp only [uncommit, foldl_cond_pdiscard_eq_filter]; exact h.pendNodup.filter _
+  · exact h.pendInB q ((mem_foldl_cond_pdiscard _ _ _ _).1 hq).1
 
 theorem inv0_removeUnfinished {c : Cfg L} {s : State V L} (h : Inv0 c s) : Inv0 c (removeUnfinished c s) :=
   ⟨by simp [removeUnfinished],
@@ -724,9 +906,10 @@ theorem inv0_ask {c : Cfg L} {s : State V L} (h : Inv0 c s) (cands : Oracle V L)
   have hcore : Inv0 c (askCore c cands s n).1 :=
     askCore_state_induct c cands (Inv0 c) (fun _ _ _ _ h hf => inv0_fillStack h hf)
       (fun _ p h => inv0_tellPending h p) s n h
-  rcases ask_fst_cases c cands s n commit with h' | ⟨pts, _, _, h'⟩
+  rcases ask_fst_cases c cands s n commit with h' | ⟨pts, _, _, h'⟩ | ⟨_, _, h'⟩
   · rw [h']; exact hcore
-  · rw [h']; exact inv0_uncommit hcore _ _
+  · rw [h']; exact inv0_uncommit hcore _ _ _
+  · rw [h']; exact ⟨h.pendNodup, nodup_keys_ofPairs _, hcore.dataNodup, h.pendInB⟩
 
 theorem inv0_step {c : Cfg L} {s : State V L} (h : Inv0 c s) (op : Op V L) : Inv0 c (step c s op) := by
   cases op with
@@ -844,23 +1027,23 @@ theorem inv1_ask {c : Cfg L} {s : State V L} (h : Inv1 c s) (cands : Oracle V L)
   have hcore : Inv1 c (askCore c cands s n).1 :=
     askCore_state_induct c cands (Inv1 c) (fun _ _ _ _ h hf => inv1_fillStack hc h hf)
       (fun _ p h => inv1_tellPending h p) s n h
-  rcases ask_fst_cases c cands s n commit with h' | ⟨pts, hcr, _, h'⟩
+  have hdata := askCore_data c cands s n
+  rcases ask_fst_cases c cands s n commit with h' | ⟨pts, hcr, _, h'⟩ | ⟨_, _, h'⟩
   · rw [h']; exact hcore
   · rw [h']
-    obtain ⟨-, ⟨extra, hpd, hex⟩, hnp⟩ := askCore_loopP c cands hc.1 s n h.stackNotPending hcr
+    obtain ⟨-, -, hnp⟩ := askCore_loopP c cands hc.1 s n h.stackNotPending hcr
     have hne := askCore_pts_notEval c cands hc.2 s n h.stackNotEval hcr
-    have hdata : (askCore c cands s n).1.data = s.data := by
-      have := ask_data c cands s n true
-      unfold ask at this; rw [hcr] at this; simpa using this
     refine ⟨fun q hq hq' => ?_, fun q hq hb => ?_⟩
     · have hq1 : q ∈ keys pts := mem_keys_of_mem_take ((mem_keys_ofPairs _ _).1 hq)
-      obtain ⟨hq2, hq3⟩ := (mem_foldl_pdiscard _ _ _).1 hq'
-      rw [hpd] at hq2
-      rcases List.mem_append.1 hq2 with hq2 | hq2
-      · exact hnp q hq1 hq2
-      · exact hq3 (hex q hq2)
+      rw [uncommit_pending_of_core c cands s n hcr] at hq'
+      exact hnp q hq1 hq'
     · rw [uncommit_data, hdata]
       exact hne q (mem_keys_of_mem_take ((mem_keys_ofPairs _ _).1 hq)) hb
+  · rw [h']
+    refine ⟨fun q hq => ?_, fun q hq hb => ?_⟩
+    · exact h.stackNotPending q ((mem_keys_ofPairs _ _).1 hq)
+    · rw [unwind_data, hdata]
+      exact h.stackNotEval q ((mem_keys_ofPairs _ _).1 hq) hb
 
 theorem inv1_step {c : Cfg L} {s : State V L} (h : Inv1 c s) (op : Op V L) (hop : OpFresh op) :
     Inv1 c (step c s op) := by
@@ -1035,7 +1218,8 @@ theorem ask_commit_marks_pending (c : Cfg L) (cands : Oracle V L) (s : State V L
   subst hs'
   exact askCore_marks_pending c cands s n hcore
 
-/-- the operation neither tells `p` nor is `remove_unfinished`, and its oracle (if any) proposes no pending point -/
+/-- the operation neither tells `p` nor is `remove_unfinished`, and its oracle (if any) proposes fresh points (needed for
+`Inv1` only; for the pending set `KeepsPendingAny` is enough) -/
 def KeepsPending (p : Nat) : Op V L → Prop
   | .tell q _ => q ≠ p
   | .removeUnfinished => False
@@ -1045,7 +1229,7 @@ def KeepsPending (p : Nat) : Op V L → Prop
 theorem keepsPending_fresh {p : Nat} {op : Op V L} (h : KeepsPending p op) : OpFresh op := by
   cases op <;> simp_all [KeepsPending, OpFresh]
 
-theorem pending_stays_step {c : Cfg L} {s : State V L} (hinv : ∀ q ∈ keys s.stack, q ∉ s.pending) {p : Nat}
+theorem pending_stays_step {c : Cfg L} {s : State V L} (_hinv : ∀ q ∈ keys s.stack, q ∉ s.pending) {p : Nat}
     (hp : p ∈ s.pending) {op : Op V L} (hop : KeepsPending p op) : p ∈ (step c s op).pending := by
   cases op with
   | tell q v =>
@@ -1056,17 +1240,11 @@ theorem pending_stays_step {c : Cfg L} {s : State V L} (hinv : ∀ q ∈ keys s.
   | tellPending q => exact (mem_pending_tellPending _ _ _ _).2 (Or.inl hp)
   | removeUnfinished => exact absurd hop id
   | ask n commit cands =>
-    have hcore := askCore_pending_mono c cands s n hp
-    show p ∈ (ask c cands s n commit).1.pending
-    rcases ask_fst_cases c cands s n commit with h' | ⟨pts, hcr, _, h'⟩
-    · rw [h']; exact hcore
-    · rw [h']
-      obtain ⟨-, -, hnp⟩ := askCore_loopP c cands hop.1 s n hinv hcr
-      refine (mem_foldl_pdiscard _ _ _).2 ⟨hcore, fun hq => ?_⟩
-      exact hnp p (mem_keys_of_mem_take hq) hp
+    exact ask_pending_mono c cands s n commit hp
 
 /-- **C10** a pending point stays pending along every continuation that neither tells it nor calls `remove_unfinished`
-(oracles fresh; without that a non-committing `ask` can drop it: `nocommit_ask_can_unpend`) -/
+(oracles fresh).  Superseded by `pending_stays_run_any`: since the repair of the non-committing `ask` neither the invariant
+nor fresh oracles are needed (`Ex.nocommit_ask_keeps_prior_pending`) -/
 theorem pending_stays_run {c : Cfg L} {s : State V L} (hinv : Inv1 c s) {p : Nat} (hp : p ∈ s.pending)
     (ops : List (Op V L)) (hops : ∀ op ∈ ops, KeepsPending p op) : p ∈ (run c s ops).pending := by
   induction ops generalizing s with
@@ -1075,6 +1253,35 @@ theorem pending_stays_run {c : Cfg L} {s : State V L} (hinv : Inv1 c s) {p : Nat
     have hop := hops op List.mem_cons_self
     exact ih (inv1_step hinv op (keepsPending_fresh hop)) (pending_stays_step hinv.stackNotPending hp hop)
       (fun o ho => hops o (List.mem_cons_of_mem _ ho))
+
+/-- the operation neither tells `p` nor is `remove_unfinished`; an `ask` is any `ask`, against any oracle -/
+def KeepsPendingAny (p : Nat) : Op V L → Prop
+  | .tell q _ => q ≠ p
+  | .removeUnfinished => False
+  | _ => True
+
+theorem keepsPendingAny_of_keepsPending {p : Nat} {op : Op V L} (h : KeepsPending p op) : KeepsPendingAny p op := by
+  cases op <;> simp_all [KeepsPending, KeepsPendingAny]
+
+/-- **C10** (after the repair of the non-committing `ask`) a pending point stays pending along EVERY continuation that
+neither tells it nor calls `remove_unfinished`: any start state, any oracles - no `ask` takes a mark away that it did not
+make (`ask_pending_mono`) -/
+theorem pending_stays_run_any {c : Cfg L} {s : State V L} {p : Nat} (hp : p ∈ s.pending)
+    (ops : List (Op V L)) (hops : ∀ op ∈ ops, KeepsPendingAny p op) : p ∈ (run c s ops).pending := by
+  induction ops generalizing s with
+  | nil => exact hp
+  | cons op ops ih =>
+    have hop := hops op List.mem_cons_self
+    refine ih ?_ (fun o ho => hops o (List.mem_cons_of_mem _ ho))
+    cases op with
+    | tell q v =>
+      simp only [step, tell]
+      split
+      · exact (mem_pdiscard _ _ _).2 ⟨hp, Ne.symm hop⟩
+      · exact hp
+    | tellPending q => exact (mem_pending_tellPending _ _ _ _).2 (Or.inl hp)
+    | removeUnfinished => exact absurd hop id
+    | ask n commit cands => exact ask_pending_mono c cands s n commit hp
 
 /-- **C10** `remove_unfinished` empties the pending set, keeps `data`, and every corner without a value is on the stack
 at `inf` afterwards -/
@@ -1116,7 +1323,7 @@ theorem removeUnfinished_spec (c : Cfg L) (s : State V L) :
       exact this t _ (aget_aset_self _ _ _)
 
 
-/-! ## F. C09: what a non-committing `ask` does to the private stack -/
+/-! ## F. C09: what a non-committing `ask` does to the private stack (unchanged by the repairs: it still rewrites it) -/
 
 /-- **C09 mechanism** (every oracle, every state): a non-committing `ask` that returns gives the same answer as the
 committing one, leaves `data` alone, and REWRITES the stack with `OrderedDict(zip(points[:stack_size], loss_improvements))`
@@ -1264,26 +1471,11 @@ theorem ask_false_stack_char (c : Cfg L) (cands : Oracle V L) (hc : CandsGood c 
   rw [hstack, hret, ← hsplit]
   exact ofPairs_nodup (((List.take_sublist _ _).map Prod.fst).nodup hnd)
 
-theorem restore_pending {pd pd2 extra : List Nat} {l : List (Nat × L)} (h : pd2 = pd ++ extra)
-    (hex : ∀ q ∈ extra, q ∈ keys l) (hnp : ∀ q ∈ keys l, q ∉ pd) :
-    l.foldl (fun pd e => pdiscard pd e.1) pd2 = pd := by
-  rw [foldl_pdiscard_eq_filter, h, List.filter_append]
-  have h1 : pd.filter (fun q => !(keys l).contains q) = pd := by
-    rw [List.filter_eq_self]
-    intro q hq
-    simp only [Bool.not_eq_eq_eq_not, Bool.not_true, List.contains_eq_mem, decide_eq_false_iff_not]
-    exact fun hq' => hnp q hq' hq
-  have h2 : extra.filter (fun q => !(keys l).contains q) = [] := by
-    rw [List.filter_eq_nil_iff]
-    intro q hq
-    simp [hex q hq]
-  rw [h1, h2, List.append_nil]
-
-/-- **C09** when the stack already holds the `n` requested entries (and is not longer than `stack_size`, and its first `n`
-keys are not pending) a non-committing `ask` changes NOTHING: the state it returns is the state it was given -/
+/-- **C09** when the stack already holds the `n` requested entries (and is not longer than `stack_size`) a non-committing
+`ask` changes NOTHING: the state it returns is the state it was given - also when some of these entries are pending (the
+repaired clean-up keeps what was pending) -/
 theorem ask_false_noop (c : Cfg L) (cands : Oracle V L) (s : State V L) (n : Nat) (hn : n ≤ s.stack.length)
-    (hk : s.stack.length ≤ c.stackSize) (hnd : (keys s.stack).Nodup)
-    (hnp : ∀ p ∈ keys (s.stack.take n), p ∉ s.pending) :
+    (hk : s.stack.length ≤ c.stackSize) (hnd : (keys s.stack).Nodup) :
     ask c cands s n false = (s, .ok (s.stack.take n)) := by
   have hcore : askCore c cands s n = (tellPendingAll c s (s.stack.take n), .ok s.stack) := by
     unfold askCore
@@ -1292,8 +1484,8 @@ theorem ask_false_noop (c : Cfg L) (cands : Oracle V L) (s : State V L) (n : Nat
   unfold ask
   rw [hcore]
   simp only [Bool.false_eq_true, if_false, Prod.mk.injEq, and_true]
-  obtain ⟨extra, h1, h2⟩ := tellPendingAll_pending_append c s (s.stack.take n)
-  have hpd := restore_pending (l := s.stack.take n) h1 h2 hnp
+  obtain ⟨extra, h1, h2⟩ := tellPendingAll_pending_append_new c s (s.stack.take n)
+  have hpd := restore_pending_new (l := s.stack.take n) h1 h2
   have hst : ofPairs (s.stack.take c.stackSize) = s.stack := by
     rw [List.take_of_length_le hk]; exact ofPairs_nodup hnd
   have hd := tellPendingAll_data c s (s.stack.take n)
@@ -1369,7 +1561,7 @@ theorem inv2_step {c : Cfg L} (hcor : ∀ p ∈ c.corners, c.inB p = true) {s : 
       askCore_state_induct c cands (Inv2 c) (fun _ _ _ _ h hf => inv2_fillStack hop.inB h hf)
         (fun _ p h => inv2_tellPending h p) s n h
     show Inv2 c (ask c cands s n commit).1
-    rcases ask_fst_cases c cands s n commit with h' | ⟨pts, hcr, _, h'⟩
+    rcases ask_fst_cases c cands s n commit with h' | ⟨pts, hcr, _, h'⟩ | ⟨_, _, h'⟩
     · rw [h']; exact hcore
     · rw [h']
       have hpts : ∀ p ∈ keys pts, c.inB p = true :=
@@ -1381,6 +1573,7 @@ theorem inv2_step {c : Cfg L} (hcor : ∀ p ∈ c.corners, c.inB p = true) {s : 
             · obtain ⟨e, he, rfl⟩ := key_new_of_fillStack hf hp
               exact hop.inB _ _ e he) _ _ _ _ _ _ h hcr
       exact fun q hq => hpts q (mem_keys_of_mem_take ((mem_keys_ofPairs _ _).1 hq))
+    · rw [h']; exact fun q hq => h q ((mem_keys_ofPairs _ _).1 hq)
 
 /-- with corners inside the bounds and well-behaved oracles every reachable state is `StackGood` -/
 theorem stackGood_reach (c : Cfg L) (hcor : ∀ p ∈ c.corners, c.inB p = true) (ops : List (Op V L))
@@ -1431,12 +1624,20 @@ theorem inv1_needs_fresh_evaluated :
     let s := (ask cfg stale (tell cfg s4 0 77) 1 true).1
     0 ∈ keys s.stack ∧ 0 ∈ keys s.data ∧ cfg.inB 0 = true := by decide
 
-/-- **counterexample (C09/C10 without `CandsFresh`)**: point 7 is pending; a NON-committing `ask` whose geometry proposes 7
-discards it from the pending set (`for point in points[:n]: self.pending_points.discard(point)`) -/
-theorem nocommit_ask_can_unpend :
+/-- **regression example (C09/C10 without `CandsFresh`; was the counterexample `nocommit_ask_can_unpend` before the repair
+e806eb2)**: point 7 is pending; a NON-committing `ask` whose geometry proposes 7 returns 7 and KEEPS it pending (`if point not
+in was_pending: self.pending_points.discard(point)`); before the repair the clean-up discarded it -/
+theorem nocommit_ask_keeps_prior_pending :
     let s := tellPending cfg s4 7
     let r := ask cfg (fun _ _ => [(7, 5)]) s 1 false
-    7 ∈ s.pending ∧ r.2 = .ok [(7, 5)] ∧ 7 ∉ r.1.pending ∧ r.1.pending ≠ s.pending := by decide
+    7 ∈ s.pending ∧ r.2 = .ok [(7, 5)] ∧ 7 ∈ r.1.pending ∧ r.1.pending = s.pending ∧ r.1.data = s.data := by decide
+
+/-- … also when pending points sit on the stack (an `Inv1`-violating state, reachable with stale oracles: `inv1_needs_fresh`):
+the non-committing `ask` takes the pending corner 0 off the stack, returns it, and leaves the pending set as it was -/
+example :
+    let s := (ask cfg stale s4 1 true).1
+    let r := ask cfg stale s 2 false
+    s.pending = [0, 1, 2, 3, 9] ∧ s.stack = [(0, 4)] ∧ r.2 = .ok [(0, 4), (9, 5)] ∧ r.1.pending = s.pending := by decide
 
 /-- a well-behaved oracle: two points above everything known -/
 def fresh2 : Oracle Nat Nat := fun d pd =>
@@ -1508,16 +1709,32 @@ theorem nocommit_truncates_long_stack :
 
 /-- the no-op theorem is not vacuous -/
 example : ask cfg fresh2 (init cfg) 3 false = (init cfg, .ok [(0, 1000), (1, 1000), (2, 1000)]) :=
-  ask_false_noop cfg fresh2 (init cfg) 3 (by decide) (by decide) (by decide) (by decide)
+  ask_false_noop cfg fresh2 (init cfg) 3 (by decide) (by decide) (by decide)
 
 /-- an oracle without candidates: the loop of `ask` cannot make progress (the real `while n_left > 0` never ends) -/
 theorem empty_oracle_diverges : (ask cfg (fun _ _ => []) s4 1 true).2 = .diverge := by decide
 
-/-- fewer than three points known: `_fill_stack` raises out of `ask`, which has ALREADY marked the stack pending -/
-theorem too_few_points_midway :
+/-- **regression example (was `too_few_points_midway` before the repair 844d031)**: fewer than three points known:
+`_fill_stack` raises out of `ask`, which has ALREADY marked the stack pending.  The non-committing `ask` takes the marks back
+and puts the stack entries back - the state is the state before the call; the committing `ask` keeps marks and shortened
+stack, as before -/
+theorem too_few_points_unwound :
     let c1 : Cfg Nat := { cfg with corners := [0, 1] }
     let r := ask c1 fresh2 (init c1) 3 false
-    r.2 = .tooFew ∧ r.1.pending = [0, 1] ∧ r.1.stack = [] := by decide
+    let r' := ask c1 fresh2 (init c1) 3 true
+    r.2 = .tooFew ∧ r.1 = init c1 ∧ r.1.pending = [] ∧ r.1.stack = [(0, 1000), (1, 1000)] ∧
+    r'.2 = .tooFew ∧ r'.1.pending = [0, 1] ∧ r'.1.stack = [] := by decide
+
+/-- the failed-request theorem is not vacuous, and holds with points pending beforehand -/
+example :
+    let c1 : Cfg Nat := { cfg with corners := [0] }
+    let s := tellPending c1 (init c1) 7
+    ask c1 fresh2 s 2 false = (s, .tooFew) ∧ s.pending = [7] ∧ s.stack = [(0, 1000)] ∧
+    (ask c1 fresh2 s 2 true).1.pending = [7, 0] := by
+  intro c1 s
+  refine ⟨?_, by decide, by decide, by decide⟩
+  have h : (ask c1 fresh2 s 2 false).2 = .tooFew := by decide
+  exact Prod.ext (ask_false_failed_noop c1 fresh2 s 2 (by decide) (Prod.ext rfl h)) h
 
 /-- re-tell with another value overwrites; with the same value nothing changes; `npoints` counts distinct points -/
 example :
